@@ -24,7 +24,8 @@ def filters_for(prog, rng, thorough):
 def run(tier, seed):
     n = tier_n(tier, 200, 2500)
     g = gen.Gen(seed * 7919 + 13)
-    progs = [g.program({"nstrat": g.rng.choice([1, 2, 2, 3]), "p_post": 0.6, "cross": 0.5, "nsteps": g.rng.choice([1, 2])}) for _ in range(n)]
+    progs = [g.program({"nstrat": g.rng.choice([1, 2, 2, 3]), "p_post": 0.6, "cross": 0.5, "nsteps": g.rng.choice([1, 2]),
+                        "full_filters": 0.6}) for _ in range(n)]
     out = []
     nq = 0
     for p in progs:
